@@ -907,6 +907,32 @@ func Build(p Prog, seed int64, failSlot int, failWhen string, tmpdir string) (*B
 			} else {
 				err = m.AttachReader(name, bytes.NewReader(content), fo...)
 			}
+		case src == "readeroff": // a seekable reader that is not at its start: the caller has consumed a header of the stream
+			prefix := []byte("magic header line the caller has read already\r\n")
+			rd := bytes.NewReader(append(append([]byte{}, prefix...), content...))
+			_, _ = rd.Seek(int64(len(prefix)), io.SeekStart)
+			if embed {
+				err = m.EmbedReader(name, rd, fo...)
+			} else {
+				err = m.AttachReader(name, rd, fo...)
+			}
+		case src == "iofsflaky": // a file of a directory file system whose reads fail while the source is "broken" (transient)
+			dir, derr := os.MkdirTemp(tmpdir, "iofs-*")
+			if derr != nil {
+				return derr
+			}
+			b.cleanup = append(b.cleanup, func() { _ = os.RemoveAll(dir) })
+			if werr := os.WriteFile(filepath.Join(dir, "src.bin"), content, 0o600); werr != nil {
+				return werr
+			}
+			fsys := &toggleFS{inner: os.DirFS(dir), broken: b.Broken}
+			b.usesToggle = true
+			fo = append(fo, mail.WithFileName(name))
+			if embed {
+				err = m.EmbedFromIOFS("src.bin", fsys, fo...)
+			} else {
+				err = m.AttachFromIOFS("src.bin", fsys, fo...)
+			}
 		case src == "buffer": // the caller's scratch buffer is reused after the call
 			buf := bytes.NewBuffer(append([]byte{}, content...))
 			if embed {
@@ -1167,6 +1193,32 @@ func (f *flakyFS) Open(name string) (fs.File, error) {
 	}
 	st, _ := file.Stat()
 	return &halfFile{File: file, left: st.Size() / 2}, nil
+}
+
+// toggleFS: reads of its files fail while the outage switch of the scenario is on (the files open fine).
+type toggleFS struct {
+	inner  fs.FS
+	broken *Broken
+}
+
+func (t *toggleFS) Open(name string) (fs.File, error) {
+	f, err := t.inner.Open(name)
+	if err != nil {
+		return nil, err
+	}
+	return &toggleFile{File: f, broken: t.broken}, nil
+}
+
+type toggleFile struct {
+	fs.File
+	broken *Broken
+}
+
+func (t *toggleFile) Read(p []byte) (int, error) {
+	if t.broken.On {
+		return 0, errProducer
+	}
+	return t.File.Read(p)
 }
 
 type halfFile struct {
